@@ -245,6 +245,16 @@ struct SrcInner {
     /// longest retained diff chain
     cap: usize,
     collision: bool,
+    /// mid-step update: on entry to the k-th call the server makes on the
+    /// source during the current client step (ready / notify / full / diff /
+    /// timing all count) the source first moves to this set (serial + 1, diff
+    /// retained) and only then answers — so whatever one call returns is
+    /// consistent in itself ("the update landed when the server came asking")
+    armed: Option<(u8, u8)>,
+    calls: u8,
+    fired: Option<(u8, &'static str)>,
+    /// the state the source was in when `timing()` was last asked in this step
+    timing_asked_in: Option<(u16, u32)>,
 }
 
 impl SrcInner {
@@ -266,6 +276,21 @@ impl SrcInner {
         self.remember();
     }
     fn drop_diffs(&mut self) { self.chain.clear() }
+    fn begin_step(&mut self, armed: Option<(u8, u8)>) {
+        self.armed = armed; self.calls = 0; self.fired = None; self.timing_asked_in = None;
+    }
+    fn end_step(&mut self) { self.armed = None }
+    /// Entry of every `PayloadSource` call.
+    fn tick(&mut self, call: &'static str) {
+        self.calls = self.calls.saturating_add(1);
+        if let Some((k, set)) = self.armed {
+            if self.calls == k {
+                self.armed = None;
+                self.fired = Some((k, call));
+                self.update(set, true);
+            }
+        }
+    }
     fn restart(&mut self) {
         self.session = self.session.wrapping_add(1);
         self.serial = RESTART_SERIAL;
@@ -328,18 +353,21 @@ impl PayloadDiff for DiffIter {
 impl PayloadSource for Source {
     type Set = SetIter;
     type Diff = DiffIter;
-    fn ready(&self) -> bool { true }
+    fn ready(&self) -> bool { self.0.lock().unwrap().tick("ready"); true }
     fn notify(&self) -> State {
-        let s = self.0.lock().unwrap();
+        let mut s = self.0.lock().unwrap();
+        s.tick("notify");
         State::from_parts(s.session, Serial(s.serial))
     }
     fn full(&self) -> (State, SetIter) {
-        let s = self.0.lock().unwrap();
+        let mut s = self.0.lock().unwrap();
+        s.tick("full");
         (State::from_parts(s.session, Serial(s.serial)),
          SetIter { items: SETS[s.cur as usize].iter().map(|&i| item_payload(i)).collect(), pos: 0 })
     }
     fn diff(&self, state: State) -> Option<(State, DiffIter)> {
-        let s = self.0.lock().unwrap();
+        let mut s = self.0.lock().unwrap();
+        s.tick("diff");
         if state.session() != s.session { return None }
         let behind = s.serial.wrapping_sub(state.serial().0) as usize;
         if behind > s.chain.len() { return None }
@@ -354,7 +382,9 @@ impl PayloadSource for Source {
               DiffIter { items: ops.into_iter().map(|(i, a)| (item_payload(i), a)).collect(), pos: 0 }))
     }
     fn timing(&self) -> Timing {
-        let s = self.0.lock().unwrap();
+        let mut s = self.0.lock().unwrap();
+        s.tick("timing");
+        s.timing_asked_in = Some((s.session, s.serial));
         let t = timing_of(s.cur);
         Timing { refresh: t.0, retry: t.1, expire: t.2 }
     }
@@ -660,6 +690,10 @@ enum Ev {
     /// dies after k PDUs of the response (Cache Response included) reached
     /// the client; if the response is complete by then, it dies right after
     StepCut(u8),
+    /// the client performs one `Client::step` during which the source moves
+    /// to set S (serial + 1, diff retained) at the moment the server makes
+    /// its k-th call on the source: `StepMid(k, S)`
+    StepMid(u8, u8),
 }
 
 impl Ev {
@@ -668,6 +702,7 @@ impl Ev {
             Ev::Update(s) => format!("U{s}"), Ev::UpdateNoDiff(s) => format!("X{s}"),
             Ev::DropDiffs => "D".into(), Ev::Restart => "R".into(), Ev::Wrap => "W".into(),
             Ev::Notify => "N".into(), Ev::Step => "S".into(), Ev::StepCut(k) => format!("C{k}"),
+            Ev::StepMid(k, s) => format!("M{k}:{s}"),
         }
     }
     fn parse(s: &str) -> Option<Ev> {
@@ -677,6 +712,11 @@ impl Ev {
             "N" => Some(Ev::Notify), "S" => Some(Ev::Step),
             _ if s.starts_with('U') => set(&s[1..]).map(Ev::Update),
             _ if s.starts_with('X') => set(&s[1..]).map(Ev::UpdateNoDiff),
+            _ if s.starts_with('M') => {
+                let (k, t) = s[1..].split_once(':')?;
+                let k = k.parse::<u8>().ok().filter(|k| (1..=9).contains(k))?;
+                set(t).map(|t| Ev::StepMid(k, t))
+            }
             _ if s.starts_with('C') => s[1..].parse::<u8>().ok().filter(|k| (1..=9).contains(k)).map(Ev::StepCut),
             _ => None,
         }
@@ -700,7 +740,13 @@ const CUTS: [u8; 3] = [1, 2, 3];
 #[derive(Clone, Debug, PartialEq, Eq)]
 struct Abs { cur: u8, chain_len: usize, epoch: u8, pending: usize }
 
-fn enabled(abs: &Abs, with_nodiff_updates: bool) -> Vec<Ev> {
+/// The calls a step can make on the source: ready, diff, [ready,] full,
+/// timing — at most five on the unchanged tree (a position the exchange
+/// does not reach leaves the event equal to a plain step).
+const MID_CALLS: [u8; 5] = [1, 2, 3, 4, 5];
+
+fn enabled(abs: &Abs, thorough: bool) -> Vec<Ev> {
+    let with_nodiff_updates = thorough;
     let mut v = Vec::new();
     for s in 0..SETS.len() as u8 { if s != abs.cur { v.push(Ev::Update(s)) } }
     if with_nodiff_updates { for s in 0..SETS.len() as u8 { if s != abs.cur { v.push(Ev::UpdateNoDiff(s)) } } }
@@ -710,6 +756,11 @@ fn enabled(abs: &Abs, with_nodiff_updates: bool) -> Vec<Ev> {
     if abs.pending < MAX_PENDING_NOTIFY { v.push(Ev::Notify) }
     v.push(Ev::Step);
     for k in CUTS { v.push(Ev::StepCut(k)) }
+    // mid-step updates: every other set (thorough) / the two sets that differ
+    // most from anything else: everything and nothing (quick)
+    let targets: Vec<u8> = if thorough { (0..SETS.len() as u8).filter(|s| *s != abs.cur).collect() }
+        else { [6u8, 0, 1].into_iter().filter(|s| *s != abs.cur).take(2).collect() };
+    for k in MID_CALLS { for &t in &targets { v.push(Ev::StepMid(k, t)) } }
     v
 }
 
@@ -877,6 +928,7 @@ fn initial_source(cfg: &Cfg) -> SrcInner {
         session: SESSION0, serial: ROOT_SERIAL0 + 2, cur: ROOT_SETS[2],
         chain: if cfg.init == Init::TwoBehindNoDiffs { vec![ROOT_SETS[1]] } else { vec![ROOT_SETS[0], ROOT_SETS[1]] },
         record: BTreeMap::new(), epoch: 0, style: cfg.style, cap: cfg.cap as usize, collision: false,
+        armed: None, calls: 0, fired: None, timing_asked_in: None,
     };
     for (k, set) in ROOT_SETS.iter().enumerate() { s.record.insert((SESSION0, ROOT_SERIAL0 + k as u32), *set); }
     s
@@ -973,7 +1025,8 @@ async fn exec_async(cfg: Cfg, hist: Vec<Ev>) -> Exec {
             Ev::Restart => src.0.lock().unwrap().restart(),
             Ev::Wrap => src.0.lock().unwrap().wrap(),
             Ev::Notify => { notify.notify(); settle().await; }
-            Ev::Step | Ev::StepCut(_) => {
+            Ev::Step | Ev::StepCut(_) | Ev::StepMid(..) => {
+                src.0.lock().unwrap().begin_step(if let Ev::StepMid(k, t) = *ev { Some((k, t)) } else { None });
                 let (m_s2c, m_c2s) = {
                     let mut o = conn.obs.lock().unwrap();
                     if let Ev::StepCut(k) = *ev { o.cut_after = Some(k as usize); o.cut_count = 0; }
@@ -990,6 +1043,11 @@ async fn exec_async(cfg: Cfg, hist: Vec<Ev>) -> Exec {
                     Ok(Ok(())) => StepResult::Ok,
                     Ok(Err(e)) => StepResult::Err(format!("{:?}: {}", e.kind(), e)),
                     Err(_) => StepResult::Hang,
+                };
+                let (mid_fired, timing_asked_in) = {
+                    let mut s = src.0.lock().unwrap();
+                    s.end_step();
+                    (s.fired, s.timing_asked_in)
                 };
                 let state_after = conn.client.state().map(|s| (s.session(), s.serial().0));
                 let data_after = conn.client.target().data.clone();
@@ -1023,6 +1081,7 @@ async fn exec_async(cfg: Cfg, hist: Vec<Ev>) -> Exec {
                     let eod = o.s2c[m_s2c..].iter().find(|f| f.typ == 7).and_then(parse_eod);
                     (t.join(" "), class.to_string(), eod, downgraded)
                 };
+                let transcript = match mid_fired { Some((k, call)) => format!("{transcript} [source moved at call {k}: {call}()]"), None => transcript };
                 let mut verdicts: Vec<(&'static str, String)> = Vec::new();
                 let mut negotiated = None;
                 if result == StepResult::Ok {
@@ -1048,7 +1107,14 @@ async fn exec_async(cfg: Cfg, hist: Vec<Ev>) -> Exec {
                                     "state {:?} (source set #{set}) at version {version}: target holds {} but the source reported {} (previous data {}, exchange: {})",
                                     state_after.unwrap(), data_after.render(), want.render(), data_before.render(), transcript)));
                             }
-                            if version >= 1 && reported_timing != Some(timing_of(set)) {
+                            // The library asks the source for its timing in a
+                            // separate call after the data. If a mid-step
+                            // update landed in between, "the source's timing"
+                            // for the state named in End of Data was never
+                            // asked for: judged only if timing() was asked
+                            // while the source was in that very state.
+                            let timing_judged = timing_asked_in.is_none() || timing_asked_in == state_after;
+                            if version >= 1 && timing_judged && reported_timing != Some(timing_of(set)) {
                                 verdicts.push(("C06.timing.equals_source", format!(
                                     "version {version}: client reports timing {reported_timing:?}, source's is {:?} (exchange: {transcript})", timing_of(set))));
                             }
@@ -1059,6 +1125,7 @@ async fn exec_async(cfg: Cfg, hist: Vec<Ev>) -> Exec {
                 let cut_fired = { let mut o = conn.obs.lock().unwrap(); o.cut_after = None; o.cut_fired };
                 let ok = result == StepResult::Ok && !cut_fired;
                 let class = if cut_fired { format!("{class}+connection-cut") } else { class };
+                let class = match mid_fired { Some((_, call)) => format!("{class}+source-moved-at-{call}()"), None => class };
                 steps.push(StepObs { result, transcript, class, eod, state_after, data_after, reported_timing, sim_ms,
                     changed, verdicts, negotiated, downgraded });
                 if ok {
@@ -1079,7 +1146,7 @@ async fn exec_async(cfg: Cfg, hist: Vec<Ev>) -> Exec {
     let (key, abs, m) = compute_key(&cfg, &src, &conn);
     machinery.extend(m);
     let odd_ops = (conn.client.target().odd_withdraw, conn.client.target().odd_announce);
-    let last_is_step = matches!(hist.last(), Some(Ev::Step | Ev::StepCut(_)));
+    let last_is_step = matches!(hist.last(), Some(Ev::Step | Ev::StepCut(_) | Ev::StepMid(..)));
     let label = steps.last().filter(|_| last_is_step).map(|s| {
         let (class, res) = match &s.result {
             StepResult::Ok => (format!("step:ok:{}{}", if s.downgraded { "downgrade+" } else { "" }, s.class), "ok".to_string()),
@@ -1221,8 +1288,8 @@ fn main() {
     let depth_bound: usize = std::env::var("C06_DEPTH").ok().and_then(|s| s.parse().ok()).unwrap_or(40);
     let wall_cap = Duration::from_secs(ctx.tier.pick(34, 560));
     // update_nodiff(S) is update(S) followed by drop_diffs: it adds no
-    // reachable state, only shorter paths; the quick tier leaves it out.
-    let with_nodiff_updates = thorough;
+    // reachable state, only shorter paths; the quick tier leaves it out
+    // (see `enabled`).
 
     // ---- configurations ----
     // (diff style, longest retained diff chain). Net diffs depend only on the
@@ -1237,7 +1304,7 @@ fn main() {
     }}}
 
     let sp = ctx.space("rtr.histories",
-        "breadth-first over event histories {update(S) [thorough: + update_nodiff(S)] for the 7 other sets of an 8-set family, drop_diffs, restart, wrap, notify, client_step, client_step with the connection dying after 1/2/3 response PDUs} from every root (7 initial client states x client initial version 0..2 x proxy limit 0..2 [thorough: + answer-lower proxy where civ > limit] x diff style [thorough: chained with 3 retained diffs, net with 2; quick: chained with 2]), states de-duplicated by canonical key, every transition re-executed on the real Client and Server; non-trivial = transitions whose client step completed (Ok) AND changed the client's state or data (each (state, event) pair is executed once, so they are distinct by construction)");
+        "breadth-first over event histories {update(S) [thorough: + update_nodiff(S)] for the 7 other sets of an 8-set family, drop_diffs, restart, wrap, notify, client_step, client_step with the connection dying after 1/2/3 response PDUs, client_step with the source moving to another set (quick: 2 target sets, thorough: all 7) on entry to the k-th source call of the exchange, k = 1..5} from every root (7 initial client states x client initial version 0..2 x proxy limit 0..2 [thorough: + answer-lower proxy where civ > limit] x diff style [thorough: chained with 3 retained diffs, net with 2; quick: chained with 2]), states de-duplicated by canonical key, every transition re-executed on the real Client and Server; oracles judge against the state named in End of Data, never against the source's latest state; timing is judged only when the source was asked for its timing while in that very state (the library reads timing in a separate call, so an update landing between data and timing leaves the clause undefined); non-trivial = transitions whose client step completed (Ok) AND changed the client's state or data (each (state, event) pair is executed once, so they are distinct by construction)");
 
     let start = WallInstant::now();
     let mut st = Stats { transitions: 0, executions: 0, nontrivial: 0, outcomes: BTreeMap::new(),
@@ -1272,7 +1339,7 @@ fn main() {
     for depth in 1..=depth_bound {
         if frontier.is_empty() { exhausted = true; break }
         let tasks: Vec<(usize, Ev)> = frontier.iter().enumerate()
-            .flat_map(|(i, n)| enabled(&n.abs, with_nodiff_updates).into_iter().map(move |e| (i, e))).collect();
+            .flat_map(|(i, n)| enabled(&n.abs, thorough).into_iter().map(move |e| (i, e))).collect();
         // a level is only started if the time used so far leaves room for it
         // (safety net; deeper levels replay longer histories, hence the factor)
         if depth > 1 {
@@ -1297,7 +1364,8 @@ fn main() {
             st.executions += 1; st.transitions += 1;
             let ev_class = match ev { Ev::Update(_) => "event:update", Ev::UpdateNoDiff(_) => "event:update_nodiff", Ev::DropDiffs => "event:drop_diffs",
                 Ev::Restart => "event:restart", Ev::Wrap => "event:wrap", Ev::Notify => "event:notify", Ev::Step => "event:client_step",
-                Ev::StepCut(_) => "event:client_step_with_connection_cut" };
+                Ev::StepCut(_) => "event:client_step_with_connection_cut",
+                Ev::StepMid(..) => "event:client_step_with_source_update_in_flight" };
             bump(&mut st.outcomes, ev_class);
             if !r.panics.is_empty() {
                 bump(&mut st.outcomes, "step:panic");
@@ -1395,8 +1463,8 @@ fn main() {
     sp.set("roots", json!(roots.len()));
     sp.set("version_configs", json!(vconfigs.iter().map(|(c, l, m)| format!("{c}/{l}/{m:?}")).collect::<Vec<_>>()));
     sp.set("diff_styles(style, retained chain)", json!(styles.iter().map(|s| format!("{:?}/{}", s.0, s.1)).collect::<Vec<_>>()));
-    sp.set("events", json!(["U<S> update (diff retained)", "X<S> update (diff history dropped)", "D drop diffs", "R restart (new session)", "W serial := 2^32-1", "N notify", "S client step", "C<k> client step, connection dies after k PDUs of the response"]));
-    sp.set("bounds", json!({"pending_notifies": MAX_PENDING_NOTIFY, "connection_cut_after_pdus": CUTS, "simulated_horizon_s": HORIZON.as_secs()}));
+    sp.set("events", json!(["U<S> update (diff retained)", "X<S> update (diff history dropped)", "D drop diffs", "R restart (new session)", "W serial := 2^32-1", "N notify", "S client step", "C<k> client step, connection dies after k PDUs of the response", "M<k>:<S> client step, source moves to set S on entry to the k-th call the server makes on it (ready/notify/full/diff/timing)"]));
+    sp.set("bounds", json!({"pending_notifies": MAX_PENDING_NOTIFY, "connection_cut_after_pdus": CUTS, "mid_step_update_at_source_call": MID_CALLS, "simulated_horizon_s": HORIZON.as_secs()}));
     sp.set("distinct_outcomes(step transcripts)", json!(st.transcripts.len()));
     sp.set("ok_steps_by_version_config", json!(st.ok_by_pair));
     sp.set("ok_steps_with_downgrade", json!(st.downgrade_ok_by_pair));
